@@ -41,7 +41,7 @@ def tasks_for(prop, tier):
         ts += [("json", "header")]
     if prop == "C15":
         ts += [("json", "c15", K) for K in PRIMITIVES if ("c15", K) not in JSON_STANDIN]
-        ts += [("json", "fromJson")]
+        ts += [("json", "fromJson"), ("json", "hasKeys")]
     if prop == "C06":
         ts += [("json", "tojson-frame", K) for K in PRIMITIVES if ("rt", K) not in JSON_STANDIN]
     return ts
@@ -118,6 +118,8 @@ def run_task(P, task, prop, tier, out):
         return header_task(P, prop, tier, out)
     if kind == "fromJson":
         return fromjson_task(P, prop, tier, out)
+    if kind == "hasKeys":
+        return haskeys_task(P, prop, tier, out)
     raise ValueError(task)
 
 
@@ -335,3 +337,54 @@ def fromjson_task(P, prop, tier, out):
         goal = z3.And(goal, s.forall(k, JM.jhas(j, k), z3.Or(k == T("type"), k == T("data"), k == T("version")), equiv=True, name="header-keys"))
         vc = smt.build_vc("json", s, goal)
         record(out, prop, fi.qualname, "ensures:valid-header", f"p{i}", "symbolic-json", vc, tier)
+
+
+def haskeys_task(P, prop, tier, out):
+    """util.hasKeys(test, required, optional): True iff required <= test <= required | optional; its
+    arguments and its shared default argument (optional=set()) are left unchanged"""
+    from .core import CSet, LSet
+
+    fi = P.function("histogrammar.util.hasKeys")
+    add_function(out, fi, "symbolic key set")
+    for variant in ("default-optional", "explicit-optional"):
+        X = Exec(P, models.std_hooks())
+        st = State()
+        j = z3.Const("doc", core.Json)
+        member = lambda x: z3.And(core.Key.is_KStr(x), JM.jhas(j, core.Key.ks(x)))
+        test = st.alloc(LSet(member), new=False)
+        required = st.alloc(CList([VStr("entries"), VStr("data")]), new=False)
+        args = [test, required]
+        opt_keys = []
+        if variant == "explicit-optional":
+            args.append(st.alloc(CList([VStr("name")]), new=False))
+            opt_keys = ["name"]
+        pre = st.fork()
+        st.frames = [{"%module": "histogrammar.util"}]
+        try:
+            res = X.call_function(st, fi, args, {})
+        except Unsupported as e:
+            out["out_of_reach"].append({"function": fi.qualname, "reason": str(e)})
+            return
+        T = core.strlit
+        for i, r in enumerate(res):
+            p = f"{variant}:p{i}"
+            if r.exc is not None:
+                vc = smt.build_vc("json", r.st.fork(), z3.BoolVal(False))
+                record(out, prop, fi.qualname, "ensures:no-raise", p, variant, vc, tier)
+                continue
+            s = r.st.fork()
+            k = z3.Const(f"hk!{core.uid()}", core.StrS)
+            allowed = ["entries", "data"] + opt_keys
+            spec = z3.And(
+                JM.jhas(j, T("entries")),
+                JM.jhas(j, T("data")),
+                s.forall(k, JM.jhas(j, k), z3.Or([k == T(a) for a in allowed]), equiv=True, name="haskeys-spec"),
+            )
+            vc = smt.build_vc("json", s, X.truth(s, r.v) == spec)
+            record(out, prop, fi.qualname, "ensures:result-iff-exact-key-set", p, variant, vc, tier)
+            # frame: every object that existed before the call (arguments, and the default-argument set that
+            # all calls share) is the same object with the same content
+            same = all(r.st.heap.get(oid) is o for oid, o in pre.heap.items() if oid != "__globals__")
+            defaults_ok = all(not (isinstance(o, CSet) and oid not in pre.heap and oid not in r.st.new_oids and len(o.items) > 0) for oid, o in r.st.heap.items() if oid != "__globals__")
+            vc = smt.build_vc("json", r.st.fork(), z3.BoolVal(bool(same and defaults_ok)))
+            record(out, prop, fi.qualname, "ensures:arguments-and-defaults-unchanged", p, variant, vc, tier)
